@@ -239,7 +239,8 @@ Ret(kind, hasOut, out, hasErr, err, textOk) ==
           \cup V(dl # NoTime => \A o \in Outs : IsPrefixOf(nd[o], written[o]), "C04_no_output_lost_or_repeated_across_resumed_reads")
           \cup V(complete => \A o \in Outs \cap piped : nd[o] = written[o] /\ buf[o] = <<>> /\ ~cOpen[o],
                  "C02_out_complete")
-          \cup V(complete /\ "in" \in piped => inAcc = input /\ ~pOpen["in"], "C02_in_complete")
+          \* (input that the child can no longer receive -- it has closed its end -- is not owed)
+          \cup V(complete /\ "in" \in piped => (inAcc = input \/ ~cOpen["in"]) /\ ~pOpen["in"], "C02_in_complete")
           \cup V(kind \in {"ok", "timedout"} => ~InputDoneButOpen, "C02_in_eof_prompt")
           \cup V(limit >= 0 /\ kind \in {"ok", "timedout"} => total <= limit, "C03_limit")
           \cup V(kind = "ok" /\ allEmpty => \A o \in Outs \cap piped : buf[o] = <<>> /\ ~cOpen[o],
